@@ -158,12 +158,14 @@ def theta_degree_ok(p: Poly):
     return True
 
 
-def analyse_shape(check, L, shape, direction, dims):
+def analyse_shape(check, L, shape, direction, dims, mode="ABSOLUTE"):
     I = L.I
     mk = shape_args(L, shape, dims)
-    recs = L.run(shape, "ABSOLUTE", direction, mk)
+    # the same absolute waypoints in both distance modes: in relative mode the target argument is T - O (tracerlab), so the
+    # closed form the curve is compared with is the same
+    recs = L.run(shape, mode, direction, mk)
     accepted = 0
-    label = f"{shape}[{direction}, {dims}D]"
+    label = f"{shape}[{direction}, {dims}D]" + ("" if mode == "ABSOLUTE" else "[relative mode]")
     for rec in recs:
         if rec["outcome"] != "return" or not rec["parametric"]:
             continue
@@ -509,7 +511,8 @@ def run(check, repo, tier):
     for shape in ("arc", "circle", "helix", "thread", "spiral", "arc_radius"):
         for direction in ("CLOCKWISE", "COUNTER"):
             for dims in ((3, 2) if shape in ("arc", "helix") else (3,)):
-                n += analyse_shape(check, L, shape, direction, dims)
+                for mode in ("ABSOLUTE", "RELATIVE"):
+                    n += analyse_shape(check, L, shape, direction, dims, mode)
     n += direction_rules(check, L)
     n += filter_rule(check, L, 7 if tier == "thorough" else 5)
     n += spline_rule(check, L)
@@ -529,6 +532,6 @@ def run(check, repo, tier):
         "results are polynomials over the inputs with uninterpreted trig applications, normalised with the identities the shapes rely "
         "on, and compared with the closed form the property describes (centre, radius profile, linear angle, sweep per direction, "
         "linear z, end points). The segment filter is run on five symbolic samples over all its decision combinations.")
-    check.assume("position known on all axes; absolute mode (C11 shows both modes give the same curve)")
+    check.assume("position known on all axes; both distance modes are run with the same absolute waypoints (relative target = T - O)")
     check.assume("arc end point equals the target under the radius equality the shape itself requires (numpy.isclose, rtol 1e-10)")
     check.assume("numeric proximity of splines, segment lengths and floating-point error are not decided")
